@@ -151,6 +151,16 @@ def prepare_xrepo():
     if "done" in _xrepo_state:
         return _xrepo_state["done"]
     os.makedirs(XREPO, exist_ok=True)
+    # Two checks started at the same time must not rewrite / compile the same copy concurrently:
+    # an exclusive lock is taken here and held until this process exits (checks that need the
+    # transformed copy run one after the other; the others are not affected).
+    import fcntl
+    lock = open(XREPO + ".lock", "w")
+    t_wait = time.time()
+    fcntl.flock(lock, fcntl.LOCK_EX)
+    _xrepo_state["lock"] = lock
+    if time.time() - t_wait > 5:
+        log("waited %.0fs for another check using the transformed copy" % (time.time() - t_wait))
     subprocess.run(["rsync", "-a", "--delete", "--exclude", "/target", "--exclude", "/.git", REPO + "/", XREPO + "/"],
                    check=True)
     spec = json.load(open(os.path.join(VERIF, "transforms.json")))
